@@ -527,6 +527,11 @@ def compare_states(T, S, RT, RS, step):
         w = t._stim_circ
         if has_repeat(w):
             raise Mismatch("repeat-block", step, f"tsim variable {v} wraps a circuit with a REPEAT block: {str(w)!r}")
+        if any(getattr(x, "name", "") == "SHIFT_COORDS" for x in w):
+            # the wrapped circuit is stated to BE the flattened circuit: Stim's flattened() folds every SHIFT_COORDS into
+            # the coordinates that follow and removes the instruction, so none may be left behind
+            raise Mismatch("not-flattened", step, f"tsim variable {v} wraps a circuit that still contains SHIFT_COORDS "
+                           f"(not a fixpoint of stim's flattened()): {str(w)!r} vs flattened {str(w.flattened())!r}")
         a = enc_circ(w.flattened(), tags, strict=False)
         b = enc_circ(r.flattened(), tags)
         if a != b:
@@ -721,6 +726,11 @@ DIRECTED = [
                  {"op": "without_noise", "v": 2}]),
     ("repeat-text", [{"op": "text", "text": "REPEAT 2 {\n    T 0\n    REPEAT 2 {\n        H 0\n    }\n    H 0\n}\nH 0"},
                      {"op": "append_text", "v": 0, "text": "REPEAT 2 {\n    H 0\n}\nM 0"}, {"op": "pop", "v": 0, "i": -1}]),
+    ("shift-stim-operand", [{"op": "text", "text": "M 0 1\nDETECTOR(0, 0) rec[-1] rec[-2]"},
+                            {"op": "stim_new", "text": "SHIFT_COORDS(0, 5)\nTICK\nM 0 1\nDETECTOR(1, 0) rec[-1] rec[-3]"},
+                            {"op": "iadd", "v": 0, "o": ["S", 0]}, {"op": "add", "v": 0, "o": ["S", 0]},
+                            {"op": "slice", "v": 1, "start": -2, "stop": None, "step": 1},
+                            {"op": "append_text", "v": 0, "text": "SHIFT_COORDS(1)\nM 0\nDETECTOR(2) rec[-1]"}]),
     ("shift-coords", [{"op": "text", "text": "SHIFT_COORDS(1, 2)\nM 0"}, {"op": "append_text", "v": 0, "text": "DETECTOR(0) rec[-1]"}]),
 ]
 
